@@ -551,19 +551,25 @@ theorem push_concat_rows (deps : List Dep) (pop : UOp) (prt rt : Rt) (inner : Bo
       simp only [hk', Bool.false_eq_true, if_false]
       rw [hnew]
       -- the parent is dropped: the new Concat has exactly the requested columns
-      have hlab : Dx.Cols.concatCols false inner (((Cs.map labels).filter (fun f => !Dx.Cols.concatDropped false (Dx.Cols.detProj p deps []).toList f)).map
-          (Dx.Cols.concatKeepCols false (Dx.Cols.detProj p deps []).toList)) = p.cols ∧ p.ndim1 = false := by
-        unfold Dx.Cols.concat at hc
-        simp only at hc
-        split at hc
-        · cases hc
-        · cases hc
-          simp only [Bool.not_eq_false', Bool.and_eq_true, decide_eq_true_eq, Bool.not_eq_true'] at hk'
-          exact ⟨by rw [hk'.1, Dx.Cols.Parent.operand_toList], hk'.2⟩
+      have hlab0 := Dx.Cols.concat_nokeep hc hk'
       have hfilt : (Cs.map labels).filter (fun f => !Dx.Cols.concatDropped false (Dx.Cols.detProj p deps []).toList f) = Cs.map labels := by
         apply List.filter_eq_self.mpr
         intro f _
         simp [Dx.Cols.concatDropped]
+      -- every pruned input still has a column: the labels the new Concat declares are its labels
+      have hlab : Dx.Cols.concatCols false inner (((Cs.map labels).filter (fun f => !Dx.Cols.concatDropped false (Dx.Cols.detProj p deps []).toList f)).map
+          (Dx.Cols.concatKeepCols false (Dx.Cols.detProj p deps []).toList)) = p.cols ∧ p.ndim1 = false := by
+        rw [← Dx.Cols.concatLabels_of_nonempty false inner]
+        · exact hlab0
+        · intro f hf
+          rw [hfilt, ← hL] at hf
+          obtain ⟨C', hC', rfl⟩ := List.mem_map.mp hf
+          intro h0
+          have : C' = [] := by
+            cases C' with
+            | nil => rfl
+            | cons a t => simp [labels] at h0
+          exact hcols' C' hC' this
       rw [hfilt, ← hL] at hlab
       cases pop with
       | getCols P =>
